@@ -16,7 +16,7 @@ def key(ev):
     if e == "deposits":
         flaws = "+".join(sorted(set(d.get("flaw", "?") for d in ev.get("deps", []))))
         return "deposits/%s/impl-ok=%s" % (flaws, ev.get("ok"))
-    if e in ("hashes", "pubkey", "process", "replace", "finalize", "approve"):
+    if e in ("hashes", "pubkey", "process", "replace", "finalize", "approve", "consolidation"):
         return "%s/impl-ok=%s" % (e, ev.get("ok"))
     if e == "blockmsg":
         r = ev.get("r", {})
